@@ -252,6 +252,50 @@ func c05ReadRun(c c05Case) Outcome {
 			return fail("pp-reserialise", "PUSH_PROMISE %s parsed and written again reads as %v, want promised=%d block=%x", c05Desc(wire), f, c.Prom&0x7fffffff, head(body))
 		}
 	}
+	// forwarding: the frame as parsed, written back through the same FrameHeader, is the same frame to an
+	// independent reader (padding may be dropped or redone, reserved and undefined bits may go; data, header block
+	// fragment, END_STREAM / END_HEADERS and the priority fields may not change)
+	switch {
+	case c.Stream&0x7fffffff == 0:
+		// x/net's framer refuses these types on stream 0 whatever it is told: nothing to read the result back with
+	case c.Type == rawframe.Data || c.Type == rawframe.Headers || c.Type == rawframe.Continuation:
+		var fw bytes.Buffer
+		bw := bufio.NewWriterSize(&fw, 1<<16)
+		_, werr := fr.WriteTo(bw)
+		_ = bw.Flush()
+		if werr != nil {
+			return fail("forward", "frame %s parsed and written back: WriteTo failed: %v", c05Desc(wire), werr)
+		}
+		xf := xh2.NewFramer(nil, bytes.NewReader(fw.Bytes()))
+		xf.AllowIllegalReads = true
+		xf.SetMaxReadFrameSize(1<<24 - 1)
+		f, xerr := xf.ReadFrame()
+		if xerr != nil {
+			return fail("forward", "frame %s parsed and written back through the same FrameHeader is not a well-formed frame any more: %v (%s)", c05Desc(wire), xerr, c05Desc(fw.Bytes()))
+		}
+		if fw.Len() != 9+int(f.Header().Length) {
+			return fail("forward", "frame %s parsed and written back: %d octets written for a frame of length %d", c05Desc(wire), fw.Len(), f.Header().Length)
+		}
+		okf := f.Header().StreamID == c.Stream&0x7fffffff
+		switch g := f.(type) {
+		case *xh2.DataFrame:
+			okf = okf && c.Type == rawframe.Data && bytes.Equal(g.Data(), body) && g.StreamEnded() == (c.Flags&1 != 0)
+		case *xh2.HeadersFrame:
+			okf = okf && c.Type == rawframe.Headers && bytes.Equal(g.HeaderBlockFragment(), body) && g.StreamEnded() == (c.Flags&1 != 0) && g.HeadersEnded() == (c.Flags&4 != 0) && g.HasPriority() == (c.Flags&rawframe.FlagPriority != 0)
+			if okf && g.HasPriority() {
+				// the exclusive bit has no place in the library's Headers value (no getter, no setter), so it is
+				// not part of what can be forwarded; dependency and weight are
+				okf = g.Priority.StreamDep == c.Dep&0x7fffffff && g.Priority.Weight == c.Weight
+			}
+		case *xh2.ContinuationFrame:
+			okf = okf && c.Type == rawframe.Continuation && bytes.Equal(g.HeaderBlockFragment(), body) && g.HeadersEnded() == (c.Flags&4 != 0)
+		default:
+			okf = false
+		}
+		if !okf {
+			return fail("forward", "frame %s parsed and written back through the same FrameHeader reads as %s: not the same frame", c05Desc(wire), c05Desc(fw.Bytes()))
+		}
+	}
 	// exactly 9+length consumed: the sentinel parses next
 	nx, err := http2.ReadFrameFrom(br)
 	if err != nil {
@@ -384,7 +428,17 @@ func c05WriteRun(c c05Case) Outcome {
 		pf.SetStream(c.Stream & 0x7fffffff)
 		return c05WriteCheck(c, pf, c.Flags&0x4, body)
 	}
-	return c05WriteCheck(c, fr, wantFlags, body)
+	// a frame value can be written more than once (a retransmission on another connection, a log): the second
+	// write is the same frame again, not a frame of the first one's padded octets
+	if o := c05WriteCheck(c, fr, wantFlags, body); o.Fail != "" || o.Inconcl != "" {
+		return o
+	}
+	o := c05WriteCheck(c, fr, wantFlags, body)
+	if o.Fail != "" {
+		o.Fail = "second write of the same frame value: " + o.Fail
+		o.Sig = "rewrite-" + o.Sig
+	}
+	return o
 }
 
 // c05WriteCheck serialises fr and reads the octets back with x/net and a raw
